@@ -377,8 +377,7 @@ def dispatcher_checks(chk, want):
                     fails.append((entry, mode, c, e))
                 # the first part is the Smith-Waterman optimum: compare with the sw model
                 if outs:
-                    o = drv.ask('align|' + al.encode(al.default_cfg('m_sw_align'), c))
-                    m = al.decode(o, c)
+                    m = al.call_real('m_sw_align', c)
                     if m[0] == 'L' and not (outs[0][0] == m[2] and outs[0][1] == m[5] and float(outs[0][2]) == m[-1]):
                         bad.append((entry, mode, c, outs[0], m))
                 continue
@@ -391,8 +390,7 @@ def dispatcher_checks(chk, want):
             continue
         if entry == 'c.corrdist':
             # correspondences counted from the returned alignment: model columns must give the same multiset
-            cfg = al.default_cfg(kn)
-            m = al.decode(drv.ask('align|' + al.encode(cfg, c)), c)
+            m = al.call_real(kn, c)
             if m[0] == 'E':
                 continue
             A, B = (m[1], m[2]) if m[0] == 'G' else (m[2], m[5])
@@ -406,13 +404,15 @@ def dispatcher_checks(chk, want):
         chk.count((entry, mode, al.case_key(kn, c)), nontrivial(real), branch='entry:' + entry)
         cfg = al.default_cfg(kn)
         line = al.encode(cfg, c)
-        m = al.decode(drv.ask('align|' + line), c)
+        # routing tie: the entry point returns what the routed kernel returns for the routed arguments
+        # (the kernel itself is tied to the Lean model by kernel_correspondence)
+        m = al.call_real(kn, c)
         if not compare(want, real, m, c):
             bad.append((entry, mode, c, real, m))
-        if want == 'score' and dist is not None:
-            d = drv.ask('dist|' + line).split()
-            if d[0] == 'D' and b2f(d[2]) != float(dist) and not (b2f(d[2]) != b2f(d[2]) and dist != dist):
-                bad.append((entry + ':distance', mode, c, dist, b2f(d[2])))
+        if want == 'score' and dist is not None and real[0] != 'E':
+            d = drv.ask('distof|' + line + '|' + f2b(real[-1])).split()
+            if d[0] == 'D' and b2f(d[1]) != float(dist) and not (b2f(d[1]) != b2f(d[1]) and dist != dist):
+                bad.append((entry + ':distance', mode, c, dist, b2f(d[1])))
             # oracle: distance formula on the returned similarity
             fl = al.KERNELS[kn][2]
             sA = sum([(1.0 + c['factor']) * c['scorer'][x, x] for x in a]) if fl == 0 else sum([c['scorer'][x, x] for x in a])
@@ -441,7 +441,7 @@ def dispatcher_checks(chk, want):
                       {'kind': 'dispatcher', 'want': want, 'entry': f[0], 'mode': f[1], 'case': case_to_json(f[2]), 'why': f[3]})
     if bad and not fails:
         b = bad[0]
-        chk.violation('%s (%s): routed call differs from the kernel model; oracle found no failing input' % (b[0], b[1]),
+        chk.violation('%s (%s): entry point differs from the routed kernel call / Lean distance; oracle found no failing input' % (b[0], b[1]),
                       {'kind': 'dispatcher', 'want': want, 'entry': b[0], 'mode': b[1], 'case': case_to_json(b[2]),
                        'real': b[3], 'model': b[4], 'broken': 'correspondence:%s:dispatchers+wrappers' % want},
                       found_input=False)
